@@ -236,14 +236,14 @@ def extract_dataframe(
     join: Literal['outer', 'inner'] = 'outer' if missing_points == 'fill' else 'inner'
     point_dataset = point_dataset.merge(coord_dataset, join=join, fill_value=fill_value)
     if join == 'outer':
-        # Integer variables are promoted to hold the missing values of the points that missed.
-        # They must not be saved with the integer type of their source, which has no missing value.
+        # Integer and boolean variables are promoted to hold the missing values of the points that missed.
+        # They must not be saved with the type of their source, which has no missing value.
         for variable in point_dataset.variables.values():
             encoded_dtype = variable.encoding.get('dtype')
             if (
                 encoded_dtype is not None
                 and numpy.issubdtype(variable.dtype, numpy.floating)
-                and numpy.issubdtype(numpy.dtype(encoded_dtype), numpy.integer)
+                and numpy.dtype(encoded_dtype).kind in 'iub'
                 and '_FillValue' not in variable.encoding
                 and 'missing_value' not in variable.encoding
             ):
